@@ -34,3 +34,13 @@ register(
     undecided_clauses=["behaviour after a test overruns its timeout (excluded by the property itself)"],
 )
 LEVEL_TEXT["C04"] = "in progress"
+
+register(
+    "C10",
+    modules=["contracts.c16", "contracts.node_getters", "contracts.node_decisions"],
+    level="proof",
+    explanation="retry/stop decision table of should_rerun proved per configuration case; uid / own result / verdict obligations",
+    trusted=[],
+    undecided_clauses=[],
+)
+LEVEL_TEXT["C10"] = "in progress"
